@@ -105,7 +105,9 @@ func (e *Exec) invokeMethod(st *State, fr *Frame, c *ssa.CallCommon, recv Value,
 		}
 	case VErr:
 		// err.Error()
-		e.setResult(fr, ret, VStr{T: e.fresh("errstr", BV32)}, isDefer)
+		// err.Error(): the message is a function of the error value
+		e.specFns["errmsg"] = true
+		e.setResult(fr, ret, VStr{T: UF("errmsg", BV32, r.T)}, isDefer)
 		return nil, false
 	}
 	// interface-level contract
@@ -207,8 +209,33 @@ func (e *Exec) callStatic(st *State, fr *Frame, fn *ssa.Function, bindings, args
 	key := fnKey(fn)
 	if ct, ok := e.prog.contracts.Funcs[key]; ok && !ct.Inline && fn != e.fn && !e.inlineCallDirective(key) {
 		var names []string
-		for _, p := range fn.Params {
-			names = append(names, p.Name())
+		for i, p := range fn.Params {
+			n := p.Name()
+			if n == "" || n == "_" {
+				n = fmt.Sprintf("arg%d", i) // e.g. parameters of functions known from export data only
+			}
+			names = append(names, n)
+		}
+		if len(fn.Params) == 0 && len(args) > 0 {
+			// a function known from export data only has no parameter values:
+			// name the arguments after the signature (receiver first)
+			sig := fn.Signature
+			k := 0
+			if sig.Recv() != nil {
+				n := sig.Recv().Name()
+				if n == "" || n == "_" {
+					n = "arg0"
+				}
+				names = append(names, n)
+				k = 1
+			}
+			for i := 0; i < sig.Params().Len(); i++ {
+				n := sig.Params().At(i).Name()
+				if n == "" || n == "_" {
+					n = fmt.Sprintf("arg%d", i+k)
+				}
+				names = append(names, n)
+			}
 		}
 		allArgs := args
 		if !e.prog.staleContracts[key] {
